@@ -70,3 +70,53 @@ func specMatch(f, t []byte) bool {
 }
 
 func specMinQos(a, b byte) byte { return vrtIteByte(a < b, a, b) }
+
+// The library's KNOWN treatment of empty levels (known finding under C06, pinned by
+// TestNextTopicLevelSuccess): a leading or inner empty level of a FILTER acts as "+", a trailing empty
+// level of a filter or topic name is dropped ("a/" is "a", "/" as a filter is "+"). specKnownDev* rewrite
+// a name accordingly, so that "what the library does with empty levels" can be stated exactly as
+// specMatch(specKnownDevFilter(f), specKnownDevTopic(t)) - and anything ELSE it might do with such names is
+// still reported. (Plain Go branching on the separators: by the time these run the code under test has
+// already branched on them, so the path condition decides every test.)
+func specLevels(n []byte) [][]byte {
+	var out [][]byte
+	start := 0
+	for i := 0; i < len(n); i++ {
+		if n[i] == '/' {
+			out = append(out, n[start:i])
+			start = i + 1
+		}
+	}
+	return append(out, n[start:])
+}
+
+func specHasEmptyLevel(n []byte) bool {
+	for _, l := range specLevels(n) {
+		if len(l) == 0 {
+			return true
+		}
+	}
+	return false
+}
+
+func specKnownDev(n []byte, filter bool) []byte {
+	lv := specLevels(n)
+	if len(lv) > 1 && len(lv[len(lv)-1]) == 0 {
+		lv = lv[:len(lv)-1]
+	}
+	var out []byte
+	for i, l := range lv {
+		if i > 0 {
+			out = append(out, '/')
+		}
+		if len(l) == 0 && filter && (i < len(lv)-1 || len(lv) < len(specLevels(n))) {
+			out = append(out, '+')
+		} else {
+			out = append(out, l...)
+		}
+	}
+	return out
+}
+
+func specKnownDevFilter(f []byte) []byte { return specKnownDev(f, true) }
+func specKnownDevTopic(t []byte) []byte  { return specKnownDev(t, false) }
